@@ -26,7 +26,21 @@ class Globals:
                 u = m.group(1)
                 if u in self.accessors:
                     owner = f.d.get("owner", n)
-                    self.accessors[u].add(owner)
+                    if owner in prog.fns:
+                        self.accessors[u].add(owner)
+                    else:
+                        # the owner's body was inlined into its callers (a new helper or closure): the accessors are the functions
+                        # that now carry the reference to this promoted constant
+                        mi = re.search(r"::promoted\[(\d+)\]$", n)
+                        ref = '"uneval": %s, "promoted": %s' % (json.dumps(owner), mi.group(1) if mi else "0")
+                        users = [n2 for n2, f2 in prog.fns.items() if n2 != n and ref in json.dumps(f2.blocks)]
+                        if not users:
+                            parent = owner
+                            while parent not in prog.fns and "::{closure" in parent:
+                                parent = parent.rsplit("::{closure", 1)[0]
+                            users = [parent] if parent in prog.fns else []
+                        for n2 in users:
+                            self.accessors[u].add(prog.fns[n2].d.get("owner", n2) if prog.fns[n2].d.get("owner", n2) in prog.fns else n2)
         self.writers = {k: set() for k in self.keys}   # functions (or closure creators) that may write the key
         self.readers = {k: set() for k in self.keys}
         self.write_sites = {k: [] for k in self.keys}
